@@ -30,7 +30,7 @@ def asRowFmt (j : Json) : R RowFmt := do
 def opEmitRow (j : Json) : R Json := do
   let r ← asRowFmt (← fld j "row")
   return Json.mkObj [("text", Json.str (String.ofList (printNodes (rowNodesFull r)))),
-    ("rowOk", Json.bool (rowOk r)), ("uForm", Json.bool (r.cells.all fun c => uForm c.body))]
+    ("rowOk", Json.bool (rowOk r && rowNoU r)), ("uForm", Json.bool (r.cells.all fun c => uForm c.body))]
 
 /-- op `emit_para`: methods "paragraph" (one text) and "line" (several) -/
 def opEmitPara (j : Json) : R Json := do
